@@ -88,19 +88,21 @@ def mk_shape(props, nmenu, nslots=3, gmodes=1):
         p0, p1, ho, res = a[2 * nslots:2 * nslots + 4]
         gm = conc(g, gmodes)
         sels = sels[:arity(t)] + [0] * (nslots - arity(t))
-        td = fam.shape_root(t, sels, vals + [vals[0]] * 4, gmode=gm, ret="result" if concb(res) else "return")
+        td = fam.shape_root(t, sels, vals + [vals[0]] * 4, gmode=gm, ret="result" if conc(res, 2) else "return")
         return check_program(td, props, nkinds=2, prio=[p0, p1], hash_order=conc(ho, 2),
                              sig=("shape", t, tuple(sels), gm))
     return f
 
 
-def shape_params(templates, nmenu, nslots=3, gmodes=1):
+def shape_params(templates, nmenu, nslots=3, gmodes=1, slim=False):
     return ([I("t", 0, len(templates) - 1), I("g", 0, gmodes - 1)]
             + [I("s%d" % i, 0, nmenu - 1) for i in range(nslots)]
-            + [I("v%d" % i) for i in range(nslots)] + [I("p0"), I("p1"), I("ho", 0, 1), B("res")])
+            + [I("v%d" % i) for i in range(nslots)] + [I("p0"), I("p1"), I("ho", 0, 0 if slim else 1),
+                                                       I("res", 0, 0 if slim else 1)])
 
 
-def shape_cond(name, props, templates, nmenu, nslots, gmodes=1, budget=120, builds=("C",), note=""):
+def shape_cond(name, props, templates, nmenu, nslots, gmodes=1, budget=120, builds=("C",), note="",
+               slim=False, pin=2):
     """One Cond per template list; `t` indexes `templates`; unused selectors pinned to 0."""
     inner = mk_shape(props, nmenu, nslots, gmodes)
 
@@ -111,7 +113,7 @@ def shape_cond(name, props, templates, nmenu, nslots, gmodes=1, budget=120, buil
                 return True          # excluded by the precondition below (kept total for safety)
         return inner(tt, g, *a)
     pre = []
-    return Cond(name, f, shape_params(templates, nmenu, nslots, gmodes), pin=2, builds=builds,
+    return Cond(name, f, shape_params(templates, nmenu, nslots, gmodes, slim), pin=pin, builds=builds,
                 budget=budget, family="F-SHAPE", encodes=ENC_SCHED, note=note,
                 extra_pre=["_hm.core.unused_ok(%r, t, [%s])" % (
                     templates, ", ".join("s%d" % i for i in range(nslots)))])
@@ -174,7 +176,7 @@ def mk_fault(props, templates, nmenu=fam.FAULT_MENU, g0modes=5, g1modes=5):
         gm0, gm1 = conc(g0, g0modes), conc(g1, g1modes)
         slots = [fam.menu_slot(sels[i], i, v + i) for i in range(arity(tt))]
         mid = TaskD("mid", SEQ(Y(0, KEEP("pre", ITEM(0, v + 7))), fam.guard(Y(tt, *slots), gm1),
-                               Y(0, ITEM(1, v + 5))), ret="result" if concb(res) else "return")
+                               Y(0, ITEM(1, v + 5))), ret="result" if conc(res, 2) else "return")
         sib = fam.chain("sib", 2, conc(ksib, 2), v + 20)
         td = TaskD("root", SEQ(fam.guard(Y(4, TASK(mid), TASK(sib)), gm0), Y(0, ITEM(0, v + 9))))
         return check_program(td, props, nkinds=2, prio=[p0, p1], hash_order=conc(ho, 2),
@@ -182,15 +184,16 @@ def mk_fault(props, templates, nmenu=fam.FAULT_MENU, g0modes=5, g1modes=5):
     return f
 
 
-FAULT_PARAMS = lambda nt, nmenu, g0, g1: [  # noqa: E731
+FAULT_PARAMS = lambda nt, nmenu, g0, g1, slim=False: [  # noqa: E731
     I("t", 0, nt - 1), I("g0", 0, g0 - 1), I("g1", 0, g1 - 1), I("s0", 0, nmenu - 1), I("s1", 0, nmenu - 1),
-    I("s2", 0, nmenu - 1), I("ksib", 0, 1), I("p0"), I("p1"), I("ho", 0, 1), I("v"), B("res")]
+    I("s2", 0, nmenu - 1), I("ksib", 1 if slim else 0, 1), I("p0"), I("p1"), I("ho", 0, 1), I("v"),
+    I("res", 0, 0 if slim else 1)]
 
 
 def fault_cond(name, props, templates, g0modes=5, g1modes=5, pin=4, budget=180, nmenu=fam.FAULT_MENU,
-               builds=("C",)):
+               builds=("C",), slim=False):
     return Cond(name, mk_fault(props, templates, nmenu, g0modes, g1modes),
-                FAULT_PARAMS(len(templates), nmenu, g0modes, g1modes), pin=pin, builds=builds,
+                FAULT_PARAMS(len(templates), nmenu, g0modes, g1modes, slim), pin=pin, builds=builds,
                 budget=budget, family="F-FAULT", encodes=ENC_SCHED,
                 extra_pre=["_hm.core.unused_ok(%r, t, [s0, s1, s2])" % (templates,)])
 
